@@ -5,6 +5,9 @@ Property theorems only; every theorem here is audited by `Audit/C09.lean` (`#pri
 import Penguin.Model.Frame
 import Penguin.Spec.Layout
 import Penguin.Lemmas.Frame
+import Penguin.Lemmas.MuxWfFrames
+import Penguin.Lemmas.PairBytes
+import Penguin.Lemmas.MuxWfSettle
 
 namespace Penguin.C09
 open Penguin Penguin.Constants
@@ -84,5 +87,132 @@ example : decode (encode (.datagram 7 53 [0x78] [0x31])) = .ok (.datagram 7 53 [
 example : Spec.Layout.Valid [0x76, 0, 0, 0, 7, 1, 0, 0x35, 0x78, 0x31] = true := by decide
 example : Spec.Layout.Valid [0x76, 0, 0, 0, 7, 0, 0, 0x35] = true := by decide   -- empty host, empty payload
 example : decode [0x05, 0, 0, 0, 7, 3, 0, 0x35] = .ok (.bind 7 .datagram 53 []) := by decide  -- lenient version 0
+
+/-! ### What travels is what was queued: two endpoint models over BYTE wires
+
+`Penguin.Pair` joins two endpoint models by wires that carry structured frames; the real wires carry
+`encode f` and the receiver decodes.  `Penguin.PairBytes` is that system.  The theorems below say
+that nothing is lost by reasoning over frames: every message an endpoint model ever emits is in the
+codec's ranges, so the round trip above applies to everything that travels, in every run.
+
+Hypotheses, all of them ranges the Rust types enforce: the windows are `u32` (`WireCfg.wa/wb`), the
+flow-id scripts hold `next_u32` values (`WireCfg.ids`), and the application's arguments are in range
+(`Act.inRange`: the port of `new_stream_channel` is a `u16`, a `Datagram`'s flow id a `u32` and its
+port a `u16`; a `Datagram` host longer than 255 bytes is refused by `send_datagram` itself). -/
+
+open Penguin.Mux Penguin.Pair Penguin.PairBytes in
+/-- Every message either endpoint model has queued or put on a wire, in every reachable state of the
+    pair, is well-formed: ids, windows and acknowledge counts below 2^32, ports below 2^16, `Datagram`
+    hosts of at most 255 bytes. -/
+theorem emitted_messages_wellformed_in_every_run {oa ob : Opts} {ra rb : List Nat} (c : WireCfg oa ob ra rb)
+    (as : List (Side × Act)) (has : ∀ sa ∈ as, sa.2.inRange) :
+    let p := Pair.run (Pair.init oa ob ra rb) as
+    ∀ m ∈ p.a.outq ++ p.ab ++ p.b.outq ++ p.ba, m.wf := by
+  intro p m hm
+  have h := reach_wf c as has
+  simp only [List.mem_append] at hm
+  rcases hm with ((hm | hm) | hm) | hm
+  · exact h.a.out m hm
+  · exact h.ab m hm
+  · exact h.b.out m hm
+  · exact h.ba m hm
+
+open Penguin.Mux Penguin.Pair Penguin.PairBytes in
+/-- The same for one endpoint on its own, at the level the correspondence harness drives it: from a
+    state satisfying the endpoint invariant, with well-formed messages queued, every application
+    call the pair model uses and the processing of any decoded frame leave only well-formed messages
+    in the outbound queue.  (The per-function lemmas, including Bind requests and dropping the
+    `Multiplexor`, are `Good.appOpen`, `Good.appWrite`, `Good.appRead`, `Good.appShutdown`,
+    `Good.closeFlow`, `Good.appSendDgram`, `Good.appBindReq`, `Good.appBindReply`, `Good.appBindDrop`,
+    `Good.appDropMux`, `Good.unpark`, `Good.runRetries`, `Good.processFrame` in `Lemmas/MuxWfFrames.lean`.) -/
+theorem processFrame_replies_wellformed (e : EP) (h : Good e) (bs : Bytes) (f : Frame) (hd : decode bs = .ok f)
+    (ig : Bool) : OutWf (processFrame e f ig).1 ∧ EPwf (processFrame e f ig).1 :=
+  have hf := (decode_fields bs f hd).1
+  ⟨(h.processFrame f hf ig).out, (h.processFrame f hf ig).toEPwf⟩
+
+open Penguin.Mux Penguin.PairBytes in
+/-- One endpoint at the level the correspondence harness drives it (`Mux.applyOp`: one application
+    call or one delivery, then the task and the open futures run to quiescence — Bind requests,
+    dropping the `Multiplexor` and the whole wind-down included): after EVERY history of stimuli in
+    range, every message a further stimulus hands to the sink is well-formed, so its bytes decode to
+    exactly that message at the peer. -/
+theorem stimulus_wires_roundtrip (o : Opts) (r : List Nat) (ho : o.rwnd < 4294967296) (hr : ∀ k ∈ r, k < 4294967296)
+    (ops : List Mux.Op) (hops : ∀ op ∈ ops, op.inRange) (op : Mux.Op) (hop : op.inRange) :
+    ∀ m ∈ Pair.wiresOf (applyOp (runOps { opts := o, rng := r } ops) op).2.2, m.wf ∧ decMsg (encMsg m) = .msg m := by
+  intro m hm
+  have h := ((Good_init o r ho hr).runOps ops hops).applyOp op hop
+  exact ⟨h.2 m hm, decMsg_encMsg m (h.2 m hm)⟩
+
+open Penguin.Mux Penguin.Pair Penguin.PairBytes in
+/-- Lock step: from the encoding of any reachable frame-level state, every action of the byte-wire
+    pair is the encoding of the same action of the frame-wire pair — enabled in the one exactly when
+    enabled in the other (in particular `recv` is never disabled by a decode error). -/
+theorem byte_pair_lock_step {oa ob : Opts} {ra rb : List Nat} (c : WireCfg oa ob ra rb)
+    (as : List (Side × Act)) (has : ∀ sa ∈ as, sa.2.inRange) (s : Side) (a : Act) :
+    let p := Pair.run (Pair.init oa ob ra rb) as
+    stepb (enc p) s a = (Pair.step p s a).map enc :=
+  stepb_enc _ (reach_wf c as has) s a
+
+open Penguin.Mux Penguin.Pair Penguin.PairBytes in
+/-- The byte-wire pair refines the frame-wire pair: after every action list, its state is the
+    frame-level state with every message in transit encoded — same endpoints, same observations. -/
+theorem byte_pair_refines_frame_pair {oa ob : Opts} {ra rb : List Nat} (c : WireCfg oa ob ra rb)
+    (as : List (Side × Act)) (has : ∀ sa ∈ as, sa.2.inRange) :
+    runb (initb oa ob ra rb) as = enc (Pair.run (Pair.init oa ob ra rb) as) :=
+  reach_enc c as has
+
+open Penguin.Mux Penguin.Pair Penguin.PairBytes in
+/-- In every reachable state of the byte-wire pair, each message on a wire decodes to exactly the
+    message the sender had queued (the frame-level wire, position by position), and the endpoints are
+    those of the frame-level run. -/
+theorem wire_bytes_roundtrip_in_every_run {oa ob : Opts} {ra rb : List Nat} (c : WireCfg oa ob ra rb)
+    (as : List (Side × Act)) (has : ∀ sa ∈ as, sa.2.inRange) :
+    let pb := runb (initb oa ob ra rb) as
+    let p := Pair.run (Pair.init oa ob ra rb) as
+    pb.ab.map decMsg = p.ab.map .msg ∧ pb.ba.map decMsg = p.ba.map .msg ∧ pb.a = p.a ∧ pb.b = p.b := by
+  intro pb p
+  have h := reach_wf c as has
+  have he : pb = enc p := reach_enc c as has
+  rw [he]
+  exact ⟨map_decMsg_enc _ h.ab, map_decMsg_enc _ h.ba, rfl, rfl⟩
+
+open Penguin.Mux Penguin.Pair Penguin.PairBytes in
+/-- No `recv` of the byte-wire pair ever meets a Binary message that fails to decode: in every
+    reachable state the oldest message in transit to either endpoint decodes. -/
+theorem never_undecodable {oa ob : Opts} {ra rb : List Nat} (c : WireCfg oa ob ra rb)
+    (as : List (Side × Act)) (has : ∀ sa ∈ as, sa.2.inRange) :
+    let pb := runb (initb oa ob ra rb) as
+    ¬ undecodableHead pb ∧ ¬ undecodableHead pb.swap := by
+  intro pb
+  have he : pb = enc _ := reach_enc c as has
+  rw [he]
+  exact PairBytes.never_undecodable _ (reach_wf c as has)
+
+/-! Non-vacuity: a concrete run over byte wires (windows 2, threshold 1) that opens a stream to
+    `h:80` and writes three bytes; the bytes on the wire are the `Connect`, the `Acknowledge` and the
+    `Push` of PROTOCOL.md. -/
+section
+open Penguin.Mux Penguin.Pair Penguin.PairBytes
+private def bcfg : Mux.Opts := { rwnd := 2, threshold := 1 }
+private def bacts1 : List (Pair.Side × Pair.Act) := [(.A, .open 1 [104] 80), (.A, .xmit)]
+private def bacts2 : List (Pair.Side × Pair.Act) := bacts1 ++ [(.B, .recv), (.B, .xmit)]
+private def bacts3 : List (Pair.Side × Pair.Act) :=
+  bacts2 ++ [(.A, .recv), (.A, .runDone), (.B, .accept), (.A, .write 0 [1, 2, 3]), (.A, .xmit)]
+example : WireCfg bcfg bcfg [7, 8] [9, 10] := ⟨by decide, by decide, by decide⟩
+example : ∀ sa ∈ bacts3, sa.2.inRange := by decide
+example : (runb (initb bcfg bcfg [7, 8] [9, 10]) bacts1).ab = [.bin [0x70, 0, 0, 0, 7, 0, 0, 0, 2, 0, 80, 104]] := by decide
+example : (runb (initb bcfg bcfg [7, 8] [9, 10]) bacts2).ba = [.bin [0x71, 0, 0, 0, 7, 0, 0, 0, 2]] := by decide
+example : (runb (initb bcfg bcfg [7, 8] [9, 10]) bacts3).ab = [.bin [0x74, 0, 0, 0, 7, 1, 2, 3]] := by decide
+example : (runb (initb bcfg bcfg [7, 8] [9, 10]) bacts3).ab.map decMsg = [.msg (.frame (.push 7 [1, 2, 3]))] := by decide
+example : (runb (initb bcfg bcfg [7, 8] [9, 10]) (bacts3 ++ [(.B, .recv), (.B, .read 0 9)])).gb.rlog 0 = [1, 2, 3] := by decide
+-- `processFrame_replies_wellformed`, `stimulus_wires_roundtrip`: a reachable endpoint state and stimuli in range
+example : Good (runOps { opts := bcfg, rng := [7, 8] } [.open 1 [104] 80, .deliver (.msg (.frame (.acknowledge 7 2)))]) :=
+  (Good_init bcfg [7, 8] (by decide) (by decide)).runOps _ (by decide)
+example : decode [0x74, 0, 0, 0, 7, 1, 2, 3] = .ok (.push 7 [1, 2, 3]) := by decide
+example : Pair.wiresOf (applyOp (runOps { opts := bcfg, rng := [7, 8] } []) (.open 1 [104] 80)).2.2
+    = [.frame (.connect 7 2 80 [104])] := by decide
+-- out of range, the statement would be false: a port that is not a `u16` does not survive the wire
+example : decode (encode (.connect 7 2 65616 [104])) = .ok (.connect 7 2 80 [104]) := by decide
+end
 
 end Penguin.C09
